@@ -131,10 +131,16 @@ CHECKS = {
         note="Characters of the decimal rendering (libc / json) and buffer capacity are outside; %lu with a 32-bit argument is recorded as UB-by-the-standard.",
         design="6/C16", engine="pysym+llsym",
     ),
+    "C15": dict(
+        category="other",
+        technique="differential symbolic interpretation of generated C with/without c.name_prefix (z3 BV) + z3 string equality of the API-name templates read from the sources",
+        text="Kernel only (the clauses with a value quantifier): with c.name_prefix set, the C encoder/decoder found under their documented prefixed names meet the same reference bytes for all values, the offsetof/sizeof constants are identical, the size macro carries the upper-case prefix, and the Python and Go outputs are textually unchanged; the templates of Encode/Decode/Json{Name} and of the output file names are translated from the current sources to z3 strings and proved equal to the documented scheme for every name.",
+        note="NOT claimed: that every definition appears under exactly its schema name, Go field/JSON-tag naming, UPPER_SNAKE macro spelling, nested-name joining -- produced by character-inspecting code (case converters, regexes) that neither CrossHair nor z3 sequences can exhaust beyond 3-character strings here, and observed as existence of identifiers.",
+        design="6/C15", engine="llsym+tmplsym",
+    ),
 }
 
 NOT_APPLICABLE = {
-    "C15": "Names come from character-inspecting string code (case converters, regexes) that neither CrossHair nor a z3 sequence encoding can exhaust beyond 3-character strings here, and the rest is existence of concrete identifiers: no variable for a solver.",
     "C18": "Quantifies over processes, hash seeds, directories and compilation history, none of which is an input that can be made symbolic; deciding it means re-running the compiler, i.e. enumerating concrete runs.",
 }
 
@@ -174,9 +180,9 @@ def main():
             "add_only": True,
         },
         "engines": [
-            {"name": "tmplsym", "path": "vlib/tmplsym.py", "serves_properties": ["C10"], "kind_free_text": "translator from the ast of concatenation-template formatter methods to z3 sequence terms"},
+            {"name": "tmplsym", "path": "vlib/tmplsym.py", "serves_properties": ["C10", "C15"], "kind_free_text": "translator from the ast of concatenation-template formatter methods to z3 sequence terms"},
             {"name": "gosym", "path": "vlib/gosym.py", "serves_properties": ["C04", "C05", "C14", "C19"], "kind_free_text": "tree-walking interpreter for the Go subset of lib/go/bitproto.go and generated Go (typed values, wrap-around arithmetic as z3 bit-vectors, Go shift semantics, interface dispatch, defer); no Go toolchain exists here"},
-            {"name": "llsym", "path": "vlib/llsym.py", "serves_properties": ["C03", "C04", "C05", "C06", "C07", "C12", "C14"], "kind_free_text": "symbolic interpreter for clang-14 textual LLVM IR (z3 bit-vectors, concrete pointers, bounds-checked regions, if-conversion, DART forking), x86-64 and s390x data layouts"},
+            {"name": "llsym", "path": "vlib/llsym.py", "serves_properties": ["C03", "C04", "C05", "C06", "C07", "C12", "C14", "C15", "C16"], "kind_free_text": "symbolic interpreter for clang-14 textual LLVM IR (z3 bit-vectors, concrete pointers, bounds-checked regions, if-conversion, DART forking), x86-64 and s390x data layouts"},
             {"name": "pysym", "path": "vlib/pysym.py", "serves_properties": ["C01", "C02", "C05", "C07", "C08", "C09", "C11", "C12", "C13", "C14", "C17", "C20"], "kind_free_text": "DART-style symbolic execution of the real Python sources with z3 proxies (BV-192 / Int)"},
         ],
         "checks": checks,
